@@ -9,7 +9,7 @@ import numpy as np
 from hypothesis import strategies as st
 
 from vlib import env, gen, indep  # noqa: F401
-from vlib.build import lib
+from vlib.build import lib, step_cap
 from vlib.report import HarnessError, PropertyViolation
 from vlib.runner import Sub
 
@@ -61,7 +61,7 @@ def case_strategy(draw, tier):
     return {"fixed": fixed.tolist(), "mobile": mob.tolist(), "edges": edges, "lengths": lengths,
             "restr": restr, "deform": list(deform), "steps": steps,
             "sigma": draw(st.sampled_from([0.5, 0.2, 1.0])), "width": draw(st.sampled_from([0.1, 0.3, 1.0])),
-            "seed": draw(gen.SEEDS), "coincident": coincident,
+            "seed": draw(gen.SEEDS), "coincident": coincident, "chained": draw(st.integers(0, 3)) == 0,
             "mem": [draw(st.sampled_from(gen.ARRAY_LAYOUTS)),
                     draw(st.sampled_from(gen.ARRAY_LAYOUTS + (["float32", "float32"] if tuple(deform) == (0,) else [])))]}
 
@@ -137,6 +137,17 @@ def check(case):
     restr = [tuple(r) for r in case["restr"]]
     deform = tuple(case["deform"])
     budget = case["steps"]
+    prior_obj = None
+    if case.get("chained") and case.get("mem", ["C", "C"])[1] != "float32":
+        # a previous search on the same shapes; its returned array OBJECT is the starting configuration of the judged one
+        np.random.seed((case["seed"] + 17) % 2 ** 32)
+        with step_cap():
+            prior_obj = lib("prior-search", gaddlemaps.minimize_molecules, fixed.copy(), mob0.copy(), mob0.mean(axis=0),
+                            case["sigma"], min(budget, 40), restr, tab, case["width"], deform)
+        if isinstance(prior_obj, np.ndarray) and prior_obj.shape == mob0.shape and np.all(np.isfinite(prior_obj)):
+            mob0 = np.array(prior_obj, float)
+        else:
+            prior_obj = None
     rec = Recorder()
     rec.install()
     try:
@@ -144,6 +155,8 @@ def check(case):
         mem = case.get("mem", ["C", "C"])
         fixed_in = gen.as_layout(fixed, mem[0])
         mob_in = mob0.astype(np.float32) if mem[1] == "float32" else gen.as_layout(mob0, mem[1])
+        if prior_obj is not None:
+            mob_in = prior_obj
         result = lib("search", gaddlemaps.minimize_molecules, fixed_in, mob_in, mob0.mean(axis=0), case["sigma"],
                      budget, restr, tab, case["width"], deform)
     finally:
